@@ -2,6 +2,7 @@ package core
 
 import (
 	"bufio"
+	"go/types"
 	"os"
 	"sort"
 	"strings"
@@ -29,6 +30,14 @@ var BaselineFile = "/verif/baseline_functions.txt"
 var (
 	baselineOnce sync.Once
 	baseline     map[string]bool
+	// baselineBuilds tells in which builds (GOOS) a listed function exists.
+	baselineBuilds map[string]map[string]bool
+	// baselineCallers lists, for an unexported listed function, the listed
+	// functions that called it statically in the verified tree.
+	baselineCallers = map[string][]string{}
+	// renamed maps a function that took over the role of a listed function
+	// (see DetectRenames) to the listed key.
+	renamed = map[*ssa.Function]string{}
 )
 
 func loadBaseline() {
@@ -41,13 +50,125 @@ func loadBaseline() {
 	}
 	defer fh.Close()
 	baseline = map[string]bool{}
+	baselineBuilds = map[string]map[string]bool{}
 	sc := bufio.NewScanner(fh)
+	sc.Buffer(make([]byte, 1<<20), 1<<20)
 	for sc.Scan() {
 		l := strings.TrimSpace(sc.Text())
-		if l != "" && !strings.HasPrefix(l, "#") {
-			baseline[l] = true
+		if l == "" || strings.HasPrefix(l, "#") {
+			continue
+		}
+		cols := strings.Split(l, "\t")
+		key := cols[0]
+		baseline[key] = true
+		baselineBuilds[key] = map[string]bool{}
+		if len(cols) > 1 {
+			for _, b := range strings.Split(cols[1], ",") {
+				if b != "" {
+					baselineBuilds[key][b] = true
+				}
+			}
+		}
+		if len(cols) > 2 && cols[2] != "" {
+			baselineCallers[key] = strings.Split(cols[2], ";")
 		}
 	}
+}
+
+// DetectRenames finds listed functions that are gone from this build while
+// exactly one unlisted function of the same package, receiver and signature
+// appeared: the listed name was given a new spelling.  The new function then
+// stands for the listed one (its key, its place in every table), instead of
+// being treated as new code.
+func DetectRenames(goos string, fns []*ssa.Function) (pairs []string) {
+	baselineOnce.Do(loadBaseline)
+	if len(baseline) == 0 {
+		return nil
+	}
+	renamed = map[*ssa.Function]string{}
+	sigOf := func(fn *ssa.Function) string {
+		pk := ""
+		if fn.Pkg != nil {
+			pk = fn.Pkg.Pkg.Path()
+		}
+		recv := ""
+		if r := fn.Signature.Recv(); r != nil {
+			recv = types.TypeString(r.Type(), nil)
+		}
+		ps := types.TypeString(types.NewSignatureType(nil, nil, nil, fn.Signature.Params(), fn.Signature.Results(), fn.Signature.Variadic()), nil)
+		return pk + "|" + recv + "|" + ps
+	}
+	rawKey := func(fn *ssa.Function) string {
+		return strings.ReplaceAll(strings.ReplaceAll(fn.String(), ModInternal, ""), ModPath+".", "main.")
+	}
+	present := map[string]bool{}
+	newBySig := map[string][]*ssa.Function{}
+	for _, fn := range fns {
+		if fn.Parent() != nil || fn.Object() == nil || (fn.Synthetic != "" && fn.Origin() == nil) || fn.Origin() != nil {
+			continue
+		}
+		k := rawKey(fn)
+		present[k] = true
+		if !baseline[k] {
+			newBySig[sigOf(fn)] = append(newBySig[sigOf(fn)], fn)
+		}
+	}
+	if len(newBySig) == 0 {
+		return nil
+	}
+	// the listed functions of this build that are gone, by package|receiver prefix of their key
+	type gone struct{ key, pkgRecv, name string }
+	var missing []gone
+	for k := range baseline {
+		if present[k] || !baselineBuilds[k][goos] || strings.Contains(k, "[") {
+			continue
+		}
+		i := strings.LastIndex(k, ".")
+		if i < 0 {
+			continue
+		}
+		missing = append(missing, gone{k, k[:i], k[i+1:]})
+	}
+	sort.Slice(missing, func(i, j int) bool { return missing[i].key < missing[j].key })
+	for sig, cands := range newBySig {
+		if len(cands) != 1 {
+			continue
+		}
+		fn := cands[0]
+		nk := rawKey(fn)
+		i := strings.LastIndex(nk, ".")
+		if i < 0 {
+			continue
+		}
+		var match []gone
+		for _, m := range missing {
+			if m.pkgRecv == nk[:i] {
+				match = append(match, m)
+			}
+		}
+		if len(match) != 1 {
+			continue
+		}
+		// the missing function had this very signature?  The inventory keeps names only, so the test is
+		// structural: one function left, one arrived, same package and receiver, and no other new function of
+		// that package/receiver competes.
+		competitors := 0
+		for s2, c2 := range newBySig {
+			for _, f2 := range c2 {
+				k2 := rawKey(f2)
+				if j := strings.LastIndex(k2, "."); j >= 0 && k2[:j] == nk[:i] && (s2 != sig || f2 != fn) {
+					competitors++
+				}
+			}
+		}
+		if competitors > 0 {
+			continue
+		}
+		renamed[fn] = match[0].key
+		pairs = append(pairs, match[0].key+" -> "+nk)
+	}
+	sort.Strings(pairs)
+	return pairs
 }
 
 // rootOf returns the outermost enclosing declared function of fn, with
@@ -89,6 +210,55 @@ func Transparent(h *ssa.Function) bool {
 }
 
 // Inventory lists the declared functions of the module in p.
+// InventoryCallers returns, for every unexported declared function of the
+// module, the keys of the declared functions that call it statically.
+func (p *Prog) InventoryCallers() map[string][]string {
+	out := map[string]map[string]bool{}
+	for _, fn := range append(append([]*ssa.Function{}, p.ModFns...), p.Wrappers()...) {
+		if fn.Parent() != nil || fn.Object() == nil || fn.Object().Exported() || (fn.Synthetic != "" && fn.Origin() == nil) {
+			continue
+		}
+		k := FuncKey(rootOf(fn))
+		for _, cs := range p.StaticCallers(fn) {
+			ci := p.CallInstr(cs)
+			if ci == nil {
+				continue
+			}
+			ck := FuncKey(rootOf(ci.Parent()))
+			if ck == k {
+				continue
+			}
+			if out[k] == nil {
+				out[k] = map[string]bool{}
+			}
+			out[k][ck] = true
+		}
+	}
+	res := map[string][]string{}
+	for k, m := range out {
+		for c := range m {
+			res[k] = append(res[k], c)
+		}
+		sort.Strings(res[k])
+	}
+	return res
+}
+
+// FormerCaller returns, for a listed function that no longer exists, the one
+// listed function that used to call it, if it still exists: a helper that was
+// folded into its only caller lives on there.
+func (p *Prog) FormerCaller(key string) *ssa.Function {
+	baselineOnce.Do(loadBaseline)
+	if !baseline[key] || p.byKey[key] != nil {
+		return nil
+	}
+	cs := baselineCallers[key]
+	if len(cs) != 1 {
+		return nil
+	}
+	return p.byKey[cs[0]]
+}
+
 func (p *Prog) Inventory() []string {
 	set := map[string]bool{}
 	for _, fn := range append(append([]*ssa.Function{}, p.ModFns...), p.Wrappers()...) {
